@@ -12,7 +12,9 @@ Open Scope Z_scope.
 (* the sites this model accounts for, in source order *)
 Definition accounted_sites : list (pb_src * usite) :=
   map (fun i => (SrcEncoding, UGetUnchecked i)) [0; 1; 2; 3; 4; 5; 6; 7; 8; 9]
-  ++ [(SrcEncoding, UStringGuardBlock); (SrcEncoding, UForgetDropGuard); (SrcEncoding, UFastStrUnchecked)].
+  ++ [(SrcEncoding, UStringGuardBlock); (SrcEncoding, UForgetDropGuard)].
+  (* (faststr::merge went through `unsafe { FastStr::from_bytes_unchecked(bytes) }` until the repair of F-10b; the checked
+     FastStr::from_bytes it calls now is safe code: a reappearing UFastStrUnchecked site breaks C19_pb_inventory) *)
 
 Fixpoint sites_eqb (a b : list (pb_src * usite)) : bool :=
   match a, b with
